@@ -6,6 +6,8 @@ package main
 import (
 	"bytes"
 	"fmt"
+	"google.golang.org/protobuf/reflect/protodesc"
+	"google.golang.org/protobuf/types/descriptorpb"
 	"math/rand"
 
 	"github.com/cosmos/cosmos-proto/zzverif/glue"
@@ -19,7 +21,98 @@ import (
 
 func init() { engines["wire"] = engineWire }
 
+// wireCustomResolver: a generated message embedding extendable protobuf-go messages is decoded with a resolver that
+// knows an extension the global registry does not: the extension is resolved at every nesting position, exactly as
+// for the reference.
+func wireCustomResolver(rep *Report) {
+	s := glue.Lookup("vf.wkt.HoldsOptions")
+	if s == nil {
+		return
+	}
+	d := s.Zero.ProtoReflect().Descriptor()
+	fdp := &descriptorpb.FileDescriptorProto{Name: proto.String("vfdyn/ext.proto"), Package: proto.String("vf.dynext"), Syntax: proto.String("proto2"),
+		Dependency: []string{"google/protobuf/descriptor.proto"},
+		Extension: []*descriptorpb.FieldDescriptorProto{
+			{Name: proto.String("unit"), Number: proto.Int32(50900), Label: descriptorpb.FieldDescriptorProto_LABEL_OPTIONAL.Enum(), Type: descriptorpb.FieldDescriptorProto_TYPE_STRING.Enum(), Extendee: proto.String(".google.protobuf.FieldOptions")},
+			{Name: proto.String("rank"), Number: proto.Int32(50901), Label: descriptorpb.FieldDescriptorProto_LABEL_OPTIONAL.Enum(), Type: descriptorpb.FieldDescriptorProto_TYPE_SINT32.Enum(), Extendee: proto.String(".google.protobuf.MessageOptions")},
+		}}
+	fd, err := protodesc.NewFile(fdp, protoregistry.GlobalFiles)
+	if err != nil {
+		rep.Inconclusive("C03", "custom-resolver-descriptor-rejected")
+		return
+	}
+	types := new(protoregistry.Types)
+	unit := dynamicpb.NewExtensionType(fd.Extensions().ByName("unit"))
+	rank := dynamicpb.NewExtensionType(fd.Extensions().ByName("rank"))
+	_ = types.RegisterExtension(unit)
+	_ = types.RegisterExtension(rank)
+	fo := protowire.AppendString(protowire.AppendTag(nil, 50900, protowire.BytesType), "kg")
+	mo := protowire.AppendVarint(protowire.AppendTag(nil, 50901, protowire.VarintType), protowire.EncodeZigZag(-4))
+	level := protowire.AppendBytes(protowire.AppendTag(nil, 1, protowire.BytesType), fo)
+	level = protowire.AppendBytes(protowire.AppendTag(level, 2, protowire.BytesType), mo)
+	ent := protowire.AppendString(protowire.AppendTag(nil, 1, protowire.BytesType), "k")
+	ent = protowire.AppendBytes(protowire.AppendTag(ent, 2, protowire.BytesType), fo)
+	level = protowire.AppendBytes(protowire.AppendTag(level, 3, protowire.BytesType), ent)
+	stream := append(append([]byte{}, level...), protowire.AppendBytes(protowire.AppendTag(nil, 4, protowire.BytesType), level)...)
+	rc := replayCase{Engine: "wire", Type: string(s.FullName), Seed: *flagSeed, Index: -1, Value: hx(stream), Note: "custom resolver"}
+	count := func(m protoreflect.Message) (n int) { // extension fields resolved (known, not unknown bytes) anywhere below m
+		var walk func(m protoreflect.Message)
+		walk = func(m protoreflect.Message) {
+			m.Range(func(f FD, v protoreflect.Value) bool {
+				if f.IsExtension() {
+					n++
+				}
+				switch {
+				case f.IsList() && f.Kind() == protoreflect.MessageKind:
+					for i := 0; i < v.List().Len(); i++ {
+						walk(v.List().Get(i).Message())
+					}
+				case f.IsMap() && f.MapValue().Kind() == protoreflect.MessageKind:
+					v.Map().Range(func(_ protoreflect.MapKey, mv protoreflect.Value) bool { walk(mv.Message()); return true })
+				case f.Kind() == protoreflect.MessageKind && !f.IsList() && !f.IsMap():
+					walk(v.Message())
+				}
+				return true
+			})
+		}
+		walk(m)
+		return
+	}
+	for entry := 0; entry < 4; entry++ {
+		ref := dynamicpb.NewMessage(d)
+		if err := (proto.UnmarshalOptions{Resolver: types}).Unmarshal(stream, ref); err != nil {
+			rep.Inconclusive("C03", "custom-resolver-reference-rejects")
+			return
+		}
+		S := newOf(s.Zero)
+		var uerr error
+		pan, pmsg := safely(func() {
+			if entry < 2 {
+				uerr = proto.UnmarshalOptions{Resolver: types}.Unmarshal(stream, S)
+			} else {
+				in := protoiface.UnmarshalInput{Message: S.ProtoReflect(), Buf: stream, Resolver: types}
+				if entry == 3 {
+					in.Depth = protowire.DefaultRecursionLimit
+				}
+				_, uerr = S.ProtoReflect().ProtoMethods().Unmarshal(in)
+			}
+		})
+		rep.Eval("C03", []byte(fmt.Sprintf("custom-resolver|%d", entry)), true)
+		rep.Count("C03", "custom-resolver-decodes", 1)
+		if pan || uerr != nil {
+			rep.Violate("C03", "wire/unmarshal-fails", string(s.FullName), fmt.Sprintf("(custom resolver, %s) err=%v %s", unmarshalEntryName(entry), uerr, pmsg), rc)
+			continue
+		}
+		if got, want := count(S.ProtoReflect()), count(ref); got != want {
+			rep.Violate("C03", "wire/decode-differs/resolver-not-used", string(s.FullName), fmt.Sprintf("(%s) decoding with a resolver that knows two extensions of the embedded option messages: %d extension fields resolved, the reference resolves %d (the rest stays unknown bytes)", unmarshalEntryName(entry), got, want), rc)
+		}
+	}
+}
+
 func engineWire(rep *Report) {
+	if si, _ := shard(); si == 0 && onlyIndex() < 0 {
+		guardCase(rep, "C03", "wire", "vf.wkt.HoldsOptions", -1, func() { wireCustomResolver(rep) })
+	}
 	subs := allSubjects()
 	n := perType(200, 8000)
 	only := onlyIndex()
